@@ -126,7 +126,8 @@ def plan (q : Query) : Step :=
   let s2 := match q.group with
     | none => s1
     | some keys =>
-      Step.aggregate s1 (groupSpec q.cols keys) (aggSpecs q) (havingSpec q)
+      -- `aggregations` is a dict keyed by the aliased expression: a repeated `AGG(col) AS name` is kept once
+      Step.aggregate s1 (groupSpec q.cols keys) (dedup (aggSpecs q)) (havingSpec q)
         (if !hasSort then projs else []) (lim lastIsAgg) (off lastIsAgg)
   let s3 := if hasSort then Step.sort s2 (sortKey q) projs (lim lastIsSort) (off lastIsSort) else s2
   if q.distinct then
